@@ -77,8 +77,9 @@ def run(ctx):
     ctx.assume('photometry = truth SED through the exact-rational reference convolution, reddened with an independent extinction interpolation',
                'non-degenerate packages: cases where another model\'s reference chi^2 is within the margin of the planted one are regenerated (counted)',
                'flag-1 points bias the plant by 0.5 e^2/ln10 dex: recovery is compared with the reference fitter on the same data, and the reference with the analytic bound')
-    ctx.require_events('text-row:objects-with-other-package-in-between', 'pipeline:run', 'recovered:rank1', 'text-row:checked', 'FitInfo.keep:post', 'Filter.rebin:post', 'FitInfo.filter_table:post',
-                       'Source.from_ascii:post', 'Extinction.get_av:post')
+    # (the passive contracts of C05, C06, C09, C14, C20 ride along as extra observation points; which of the package's functions
+    #  the pipeline goes through is not a required route)
+    ctx.require_events('text-row:objects-with-other-package-in-between', 'pipeline:run', 'recovered:rank1', 'text-row:checked')
     ctx.require_regimes('mode:2d', 'mode:3d', 'style:v1', 'style:v2', 'exact-plant', 'noisy-plant', 'av0:at-bound', 'av0:interior', 'sources-per-file>1', 'plant:with-unused-or-limit-band', '3d:distance-range-not-in-kpc', 'package:model-without-flux-in-a-band')
     n_pipe = 10 if ctx.quick else 200
     ip = 0
@@ -146,7 +147,7 @@ def run(ctx):
         try:
             convolve_model_dir(md, filters)
         except Exception as exc:
-            ctx.violation('pipeline:convolve-raised', 'convolve_model_dir raised: %r' % (exc,), wit0)
+            ctx.raised(exc, 'pipeline:convolve-raised', 'convolve_model_dir raised: %r' % (exc,), wit0)
             ctx.rmdir(d)
             continue
         lo = float(rng.choice([0.0, 0.0, 2.0, -3.0]))
@@ -246,7 +247,7 @@ def run(ctx):
             dunit = [u.kpc, u.pc, u.cm, u.Mpc][int(rng.integers(4))]
             if mode == '3d' and dunit != u.kpc:
                 ctx.regime('3d:distance-range-not-in-kpc')
-            fit(data, [f.name for f in filters], (theta * u.arcsec).to(aunit) if mode == '2d' else theta * u.arcsec, md, out, n_data_min=1,
+            fit(data, [f.name for f in filters], (theta * u.arcsec).to(aunit), md, out, n_data_min=1,
                 extinction_law=law, av_range=(lo, hi), distance_range=(dr * u.kpc).to(dunit), output_format=sel, output_convolved=oc)
             fin = FitInfoFile(out, 'r')
             recs = list(fin)
@@ -254,7 +255,7 @@ def run(ctx):
             txt = os.path.join(d, 'pars.txt')
             write_parameters(out, txt, select_format=wsel)
         except Exception as exc:
-            ctx.violation('pipeline:raised:%s' % type(exc).__name__, 'the pipeline raised: %r' % (exc,), wit1)
+            ctx.raised(exc, 'pipeline:raised:%s' % type(exc).__name__, 'the pipeline raised: %r' % (exc,), wit1)
             ctx.rmdir(d)
             continue
         ctx.event('pipeline:run')
@@ -319,18 +320,18 @@ def run(ctx):
                               dict(wit, line=first_row, expected=[float(params[c][m0]) for c in cols]))
         # the same through result objects, with a second fitter on another package (same model names, other parameter values)
         # used before the listing is written: the row printed must still be the planted model's row of *this* package
+        import shutil
+        p0 = plants[0]
+        md2 = os.path.join(d, 'other_package')
+        shutil.copytree(md, md2)
+        for fn_ in os.listdir(md2):
+            if fn_.startswith('parameters.fits'):
+                os.remove(os.path.join(md2, fn_))
+        order2 = list(range(n_m)) if style == 'v2' else list(rng.permutation(n_m))       # (cube packages: the table follows the cube's order)
+        pkg.write_parameters(md2, [names[i] for i in order2], {c_: (np.asarray(params[c_]) * 1.37 + 5.0)[order2] for c_ in params})
         try:
-            import shutil
-            p0 = plants[0]
             fA = gen.make_fitter([f.name for f in filters], theta, md, law, (lo, hi), dr, use_memmap=False)
             infoA = fA.fit(gen.build_source(p0['name'], p0['valid'], p0['flux'], p0['err']))
-            md2 = os.path.join(d, 'other_package')
-            shutil.copytree(md, md2)
-            for fn_ in os.listdir(md2):
-                if fn_.startswith('parameters.fits'):
-                    os.remove(os.path.join(md2, fn_))
-            order2 = order if style == 'v2' else list(rng.permutation(n_m))       # (cube packages: the table follows the cube's order)
-            pkg.write_parameters(md2, [names[i] for i in order2], {c_: (np.asarray(params[c_]) * 1.37 + 5.0)[order2] for c_ in params})
             fB = gen.make_fitter([f.name for f in filters], theta, md2, law, (lo, hi), dr, use_memmap=False)
             fB.fit(gen.build_source('other', p0['valid'], p0['flux'], p0['err']))
             txt2 = os.path.join(d, 'pars_objects.txt')
@@ -344,7 +345,7 @@ def run(ctx):
                     ctx.violation('text-row:not-the-planted-models-row:objects', 'the parameter row printed next to the best fit (results passed as objects, another package fitted in between) '
                                   'is not the planted model\'s row of the parameter file', dict(wit1, line=rows2[:1], expected=[float(params[c_][m0]) for c_ in params]))
         except Exception as exc:
-            ctx.violation('pipeline:raised:objects:%s' % type(exc).__name__, 'the object-interface pipeline raised: %r' % (exc,), wit1)
+            ctx.raised(exc, 'pipeline:raised:objects:%s' % type(exc).__name__, 'the object-interface pipeline raised: %r' % (exc,), wit1)
         c09.CUR.update(params=None)
         ctx.rmdir(d)
     if ip < n_pipe // 2:
